@@ -227,7 +227,8 @@ class ExprMixin:
             v = self.get(a, o, attr)
             ca = self.class_attr_default(attr)
             if ca is not None:
-                v = z3.If(v == ABSENT, ca, v)
+                if self.known(a, v != ABSENT) is not True:
+                    v = z3.If(v == ABSENT, ca, v)
                 out.append((a, 'ok', v))
             elif default is not None:
                 out.append((a, 'ok', z3.If(v == ABSENT, default, v)))
